@@ -168,6 +168,8 @@ type WFont struct {
 	FDSelect       []int // per glyph (CID only)
 	FDSelectFormat int   // 0 or 3
 	CharsetFormat  int   // 0, 1 or 2
+	PredefCharset  int   // 0 = write a charset; 1, 2, 3 = use the predefined charset 0, 1, 2 (simple fonts)
+	OmitCharsetOp  bool  // with PredefCharset 1: rely on the default value 0 of the charset operator
 	IndexOffSize   int   // offSize for all INDEXes (0 = minimal)
 }
 
@@ -232,6 +234,10 @@ func (w *WFont) Bytes() []byte {
 		if n > 1 {
 			charset = append(charset, 0, 1, byte((n-2)>>8), byte(n-2))
 		}
+	}
+
+	if w.PredefCharset > 0 {
+		charset = nil
 	}
 
 	var fdsel []byte
@@ -308,7 +314,11 @@ func (w *WFont) Bytes() []byte {
 			d.Put(OpROS, IntNum(rosR), IntNum(rosO), IntNum(0))
 			d.Put(OpCIDCount, IntNum(n))
 		}
-		d.Put(OpCharset, off5(pos["charset"]))
+		if w.PredefCharset == 0 {
+			d.Put(OpCharset, off5(pos["charset"]))
+		} else if !w.OmitCharsetOp || w.PredefCharset != 1 {
+			d.Put(OpCharset, IntNum(w.PredefCharset-1))
+		}
 		d.Put(OpCharStrings, off5(pos["charstrings"]))
 		if w.CID {
 			d.Put(OpFDArray, off5(pos["fdarray"]))
